@@ -75,6 +75,9 @@ def gen(rng, tier):
         if len(present) < 2:
             continue
         lags = rng.sample(range(1, 6), rng.randint(1, 3))
+        if rng.random() < 0.15 and not big:
+            longest = max(len(t) for t in trajs)
+            lags.insert(rng.randrange(len(lags) + 1), longest + rng.choice([0, 1, 7]))      # a lag no trajectory can serve
         nts = rng.choice([None, None, 1, rng.randint(1, len(present) - 1)])
         if big:
             nts = rng.choice([1, 2, 3, 5, 8, len(present) - 2, None])
@@ -285,7 +288,7 @@ def judge(case, ibc, answers):
             if not case['lumped'] and r['nstates'] == 2 and answers:
                 rd = C.Reader(answers[li])
                 m = rd.res(lambda: (rd.Qmat(), rd.Q(), rd.Q()))
-                if m[0] == 'ok':
+                if m[0] == 'ok' and all(sum(row) == 1 for row in m[1][0]):     # T00+T11-1 is lambda_2 only for a stochastic matrix
                     lam2 = m[1][1]
                     g = got[0]
                     gv = None if g == 'nan' else float.fromhex(g)
